@@ -10,3 +10,9 @@ import DSymVerif.Props.C06
 #print axioms DSymVerif.C06.counters_consecutive
 #print axioms DSymVerif.C06.check_canonicity_never_panics
 #print axioms DSymVerif.C06.generator_never_panics
+#print axioms DSymVerif.C06.implications_complete
+#print axioms DSymVerif.C06.compare_monotone
+#print axioms DSymVerif.C06.emitted_iff_orderly_canonical
+#print axioms DSymVerif.C06.compare_is_lexicographic
+#print axioms DSymVerif.C06.canonical_unique
+#print axioms DSymVerif.C06.generation_irredundant
